@@ -150,7 +150,13 @@ def _structure(stmts, retname):
                 nb, no = _structure(list(st.body) + rest, retname), _structure(st.orelse, retname)
                 rest = []
             else:
-                return None
+                # a return somewhere inside one arm (the 6xx leg of an if/elif chain): what follows the statement runs after
+                # whichever arm did not return - it is continued inside both arms (duplicated, bounded by the helper's size)
+                if len(rest) > 12:
+                    return None
+                nb = _structure(list(st.body) + [copy.deepcopy(x) for x in rest], retname)
+                no = _structure(list(st.orelse) + [copy.deepcopy(x) for x in rest], retname)
+                rest = []
             if nb is None or no is None:
                 return None
             out.append(ast.copy_location(ast.If(test=st.test, body=nb or [ast.Pass()], orelse=no), st))
@@ -847,8 +853,37 @@ class _Desugar(ast.NodeTransformer):
     def __init__(self):
         self.count = 0
 
+    def visit_For(self, st):
+        self.generic_visit(st)
+        # for v in chain([a, b], rest): body   ->   body[v:=a]; body[v:=b]; for v in rest: body      (itertools.chain with a literal head)
+        it = st.iter
+        if isinstance(it, ast.Call) and (ast.unparse(it.func) in ('chain', 'itertools.chain')) and len(it.args) == 2 and not it.keywords and not st.orelse \
+                and isinstance(it.args[0], (ast.List, ast.Tuple)) and it.args[0].elts and len(it.args[0].elts) <= 3 and isinstance(st.target, ast.Name) \
+                and all(_simple(e) for e in it.args[0].elts) and _simple(it.args[1]) \
+                and not any(isinstance(x, (ast.Break, ast.Continue, ast.Return, ast.FunctionDef, ast.Lambda)) for b in st.body for x in ast.walk(b)) \
+                and not any(isinstance(x, ast.Name) and x.id == st.target.id and isinstance(x.ctx, ast.Store) for b in st.body for x in ast.walk(b)):
+            self.count += 1
+            out = []
+            for e in it.args[0].elts:
+                for b in st.body:
+                    out.append(ast.copy_location(_subst_names(b, {st.target.id: e}), st))
+            st.iter = it.args[1]
+            out.append(st)
+            for o in out:
+                ast.fix_missing_locations(o)
+            return out
+        return st
+
     def visit_Expr(self, st):
         c = st.value
+        # d.pop(k)  as a statement (value unused, no default)   ->   del d[k]
+        if isinstance(c, ast.Call) and isinstance(c.func, ast.Attribute) and c.func.attr == 'pop' and len(c.args) == 1 and not c.keywords and _simple(c.func.value) \
+                and isinstance(c.func.value, ast.Attribute) and not isinstance(c.args[0], ast.Constant):
+            self.count += 1
+            d = ast.Delete(targets=[ast.Subscript(value=c.func.value, slice=c.args[0], ctx=ast.Del())])
+            ast.copy_location(d, st)
+            ast.fix_missing_locations(d)
+            return d
         if isinstance(c, ast.Call) and isinstance(c.func, ast.Attribute) and c.func.attr == 'extend' and len(c.args) == 1 and not c.keywords \
                 and isinstance(c.args[0], (ast.List, ast.Tuple)) and c.args[0].elts and not any(isinstance(e, ast.Starred) for e in c.args[0].elts) \
                 and _simple(c.func.value):
@@ -1784,5 +1819,103 @@ def thread_optional_locals(trees):
         for fn in [x for x in ast.walk(tree) if isinstance(x, (ast.FunctionDef, ast.AsyncFunctionDef))]:
             rewrite(fn.body, fn)
             rewrite_chain(fn.body, fn, tree)
+        ast.fix_missing_locations(tree)
+    return n
+
+
+
+def inline_struct_constants(trees):
+    """`_FMT = struct.Struct('!H')` at module level and `_FMT.pack(x)` / `_FMT.unpack(b)` / `_FMT.size`  ->  `struct.pack('!H', x)` /
+    `struct.unpack('!H', b)` / `struct.calcsize('!H')`: the precompiled object is only a spelling of its format string"""
+    n = 0
+    for tree in trees.values():
+        consts = {}
+        for st in tree.body:
+            if isinstance(st, ast.Assign) and len(st.targets) == 1 and isinstance(st.targets[0], ast.Name) and isinstance(st.value, ast.Call) \
+                    and ast.unparse(st.value.func) in ('struct.Struct', 'Struct') and len(st.value.args) == 1 and isinstance(st.value.args[0], ast.Constant):
+                consts[st.targets[0].id] = st.value.args[0]
+        if not consts:
+            continue
+        stored = set(x.id for x in ast.walk(tree) if isinstance(x, ast.Name) and isinstance(x.ctx, ast.Store))
+        consts = dict((k, v) for k, v in consts.items() if sum(1 for x in ast.walk(tree) if isinstance(x, ast.Name) and x.id == k and isinstance(x.ctx, ast.Store)) == 1)
+
+        class T(ast.NodeTransformer):
+            def visit_Call(self, node):
+                self.generic_visit(node)
+                nonlocal n
+                f = node.func
+                if isinstance(f, ast.Attribute) and isinstance(f.value, ast.Name) and f.value.id in consts and f.attr in ('pack', 'unpack', 'unpack_from', 'pack_into'):
+                    n += 1
+                    node.func = ast.copy_location(ast.Attribute(value=ast.Name(id='struct', ctx=ast.Load()), attr=f.attr, ctx=ast.Load()), f)
+                    node.args = [copy.deepcopy(consts[f.value.id])] + node.args
+                return node
+
+            def visit_Attribute(self, node):
+                self.generic_visit(node)
+                nonlocal n
+                if isinstance(node.value, ast.Name) and node.value.id in consts and node.attr == 'size' and isinstance(node.ctx, ast.Load):
+                    n += 1
+                    return ast.copy_location(ast.Call(func=ast.Attribute(value=ast.Name(id='struct', ctx=ast.Load()), attr='calcsize', ctx=ast.Load()),
+                                                      args=[copy.deepcopy(consts[node.value.id])], keywords=[]), node)
+                return node
+        T().visit(tree)
+        ast.fix_missing_locations(tree)
+    return n
+
+
+
+def desugar_dict_dispatch(trees):
+    """a class-level table {const: method, ...} consulted as `h = self.TABLE.get(E); if h is not None: h(self, args)` is the
+    if/elif chain `if E == k1: self.m1(args) elif E == k2: self.m2(args)` (E a plain attribute/name read, h used for nothing else);
+    the methods then are ordinary private helpers for the inliner"""
+    n = 0
+    for tree in trees.values():
+        for cls in [c for c in tree.body if isinstance(c, ast.ClassDef)]:
+            methods = set(f.name for f in cls.body if isinstance(f, ast.FunctionDef))
+            tables = {}
+            for st in cls.body:
+                if isinstance(st, ast.Assign) and len(st.targets) == 1 and isinstance(st.targets[0], ast.Name) and isinstance(st.value, ast.Dict) and st.value.keys \
+                        and all(isinstance(k, ast.Constant) for k in st.value.keys) and all(isinstance(v, ast.Name) and v.id in methods for v in st.value.values):
+                    tables[st.targets[0].id] = [(k, v.id) for k, v in zip(st.value.keys, st.value.values)]
+            if not tables:
+                continue
+            for fn in [f for f in cls.body if isinstance(f, ast.FunctionDef)]:
+                def rewrite(stmts):
+                    nonlocal n
+                    i = 0
+                    while i + 1 < len(stmts):
+                        a, b = stmts[i], stmts[i + 1]
+                        if isinstance(a, ast.Assign) and len(a.targets) == 1 and isinstance(a.targets[0], ast.Name) and isinstance(a.value, ast.Call) \
+                                and isinstance(a.value.func, ast.Attribute) and a.value.func.attr == 'get' and isinstance(a.value.func.value, ast.Attribute) \
+                                and isinstance(a.value.func.value.value, ast.Name) and a.value.func.value.value.id == 'self' and a.value.func.value.attr in tables \
+                                and 1 <= len(a.value.args) <= 2 and (len(a.value.args) == 1 or (isinstance(a.value.args[1], ast.Constant) and a.value.args[1].value is None)) \
+                                and _simple(a.value.args[0]) and isinstance(b, ast.If) and not b.orelse and len(b.body) == 1 and isinstance(b.body[0], ast.Expr) \
+                                and isinstance(b.body[0].value, ast.Call) and isinstance(b.body[0].value.func, ast.Name) and b.body[0].value.func.id == a.targets[0].id:
+                            h = a.targets[0].id
+                            t = b.test
+                            okt = (isinstance(t, ast.Name) and t.id == h) or (isinstance(t, ast.Compare) and len(t.ops) == 1 and isinstance(t.ops[0], ast.IsNot)
+                                                                               and isinstance(t.left, ast.Name) and t.left.id == h and isinstance(t.comparators[0], ast.Constant)
+                                                                               and t.comparators[0].value is None)
+                            call = b.body[0].value
+                            uses = sum(1 for x in ast.walk(fn) if isinstance(x, ast.Name) and x.id == h)
+                            if okt and uses == 3 and call.args and isinstance(call.args[0], ast.Name) and call.args[0].id == 'self' and not call.keywords:
+                                e = a.value.args[0]
+                                chain = None
+                                for k, m in reversed(tables[a.value.func.value.attr]):
+                                    c2 = ast.Expr(value=ast.Call(func=ast.Attribute(value=ast.Name(id='self', ctx=ast.Load()), attr=m, ctx=ast.Load()),
+                                                                 args=[copy.deepcopy(x) for x in call.args[1:]], keywords=[]))
+                                    chain = ast.If(test=ast.Compare(left=copy.deepcopy(e), ops=[ast.Eq()], comparators=[copy.deepcopy(k)]), body=[c2], orelse=[chain] if chain else [])
+                                ast.copy_location(chain, a)
+                                ast.fix_missing_locations(chain)
+                                stmts[i:i + 2] = [chain]
+                                n += 1
+                                continue
+                        i += 1
+                    for st in stmts:
+                        for fld in ('body', 'orelse', 'finalbody'):
+                            sub = getattr(st, fld, None)
+                            if isinstance(sub, list) and sub and isinstance(sub[0], ast.stmt) and not isinstance(st, (ast.FunctionDef, ast.ClassDef)):
+                                rewrite(sub)
+                rewrite(fn.body)
         ast.fix_missing_locations(tree)
     return n
